@@ -38,7 +38,7 @@ Theorem C11_one_critical_section : forall cf mem rs m pu pg now,
   | inr (m', k) =>
       if r_mem k rs then
         if cf_socket_retry cf && (0 <? m_retry m') && (m_retry m' <=? c_retry_attempts)
-        then (m', rs, Some k)
+        then (m', rs, None)
         else (dec_finish (set_err m' e_cred_replayed None), rs, None)
       else (m', k :: rs, Some k)
   end.
